@@ -487,6 +487,20 @@ func retryCFG(c *core.Ctx, p *packages.Package) {
 					return callee != nil && fnObj != nil && callee == fnObj.Origin()
 				})
 			}
+			reloads := func(nd ast.Node) bool {
+				return nodeContains(nd, false, func(x ast.Node) bool {
+					cl, ok := x.(*ast.CallExpr)
+					if !ok {
+						return false
+					}
+					sel, ok := ast.Unparen(cl.Fun).(*ast.SelectorExpr)
+					if !ok || (sel.Sel.Name != "Get" && sel.Sel.Name != "Load") {
+						return false
+					}
+					tv, ok := info.Types[sel.X]
+					return ok && isAtomicRef(tv.Type)
+				})
+			}
 			seen := map[*cfg.Block]bool{}
 			var escapes func(x *cfg.Block) bool
 			escapes = func(x *cfg.Block) bool {
@@ -498,8 +512,8 @@ func retryCFG(c *core.Ctx, p *packages.Package) {
 					return false // looped back to the CAS: a retry
 				}
 				for _, nd := range x.Nodes {
-					if selfCall(nd) {
-						return false
+					if selfCall(nd) || reloads(nd) {
+						return false // the attempt starts over: status re-read (loop) or self call (recursion)
 					}
 				}
 				if len(x.Succs) == 0 {
@@ -516,6 +530,118 @@ func retryCFG(c *core.Ctx, p *packages.Package) {
 				c.Add("R-RETRY", key, call.Pos(), core.Violated, "when `"+exprString(call)+"` fails (another goroutine changed the status between Get and the swap) the function can return without calling itself again or looping: the completion / registration is silently dropped — a registration racing with Complete leaves the promise incomplete for ever")
 			} else {
 				c.Add("R-RETRY", key, call.Pos(), core.Discharged, "a failed swap always re-enters")
+			}
+		}
+		// R-FRESHVIEW: between (re)loading the pointer and swapping against it, the decision is derived from that pointer
+		{
+			type pt struct {
+				b *cfg.Block
+				i int
+			}
+			var starts []pt
+			var apObj types.Object
+			for _, b := range g.Blocks {
+				for i, nd := range b.Nodes {
+					as, ok := nd.(*ast.AssignStmt)
+					if !ok || len(as.Lhs) != 1 || len(as.Rhs) != 1 {
+						continue
+					}
+					call, ok := ast.Unparen(as.Rhs[0]).(*ast.CallExpr)
+					if !ok {
+						continue
+					}
+					sel, ok := ast.Unparen(call.Fun).(*ast.SelectorExpr)
+					if !ok || sel.Sel.Name != "Get" {
+						continue
+					}
+					if tv, ok := info.Types[sel.X]; !ok || !isAtomicRef(tv.Type) {
+						continue
+					}
+					if o := objOf(info, as.Lhs[0]); o != nil {
+						apObj = o
+						starts = append(starts, pt{b, i})
+					}
+				}
+			}
+			usesView := func(nd ast.Node) bool {
+				return nodeContains(nd, false, func(x ast.Node) bool {
+					cl, ok := x.(*ast.CallExpr)
+					if !ok {
+						return false
+					}
+					sel, ok := ast.Unparen(cl.Fun).(*ast.SelectorExpr)
+					return ok && (sel.Sel.Name == "Value" || sel.Sel.Name == "Load") && objOf(info, sel.X) == apObj
+				})
+			}
+			casOn := func(nd ast.Node) *ast.CallExpr {
+				var hit *ast.CallExpr
+				ast.Inspect(nd, func(x ast.Node) bool {
+					if _, ok := x.(*ast.FuncLit); ok {
+						return false
+					}
+					if e, ok := x.(ast.Expr); ok {
+						if cl := isCAS(e); cl != nil && len(cl.Args) == 2 && objOf(info, cl.Args[0]) == apObj {
+							hit = cl
+						}
+					}
+					return true
+				})
+				return hit
+			}
+			reassigns := func(nd ast.Node) bool {
+				as, ok := nd.(*ast.AssignStmt)
+				if !ok {
+					return false
+				}
+				for _, l := range as.Lhs {
+					if objOf(info, l) == apObj {
+						return true
+					}
+				}
+				return false
+			}
+			for si, st := range starts {
+				var stale *ast.CallExpr
+				type key struct {
+					b      *cfg.Block
+					passed bool
+				}
+				seen := map[key]bool{}
+				var walk func(b *cfg.Block, from int, passed bool)
+				walk = func(b *cfg.Block, from int, passed bool) {
+					if stale != nil {
+						return
+					}
+					if from == 0 {
+						if seen[key{b, passed}] {
+							return
+						}
+						seen[key{b, passed}] = true
+					}
+					for _, nd := range b.Nodes[from:] {
+						if reassigns(nd) {
+							return // a new attempt starts here; judged from its own start
+						}
+						if usesView(nd) {
+							passed = true
+						}
+						if cl := casOn(nd); cl != nil && !passed {
+							stale = cl
+							return
+						}
+					}
+					for _, s := range b.Succs {
+						walk(s, 0, passed)
+					}
+				}
+				walk(st.b, st.i+1, false)
+				n++
+				vkey := fb.Name + "/view#" + itoa(si+1)
+				if stale != nil {
+					c.Add("R-RETRY", vkey, stale.Pos(), core.Violated, "after the pointer "+apObj.Name()+" is (re)loaded with Get(), `"+exprString(stale)+"` is reached without the status being decoded from that pointer again ("+apObj.Name()+".Value()): the decision and the new value come from a stale view, so a retry overwrites what the winner of the race published (a registered call-back, or the completed result)")
+				} else {
+					c.Add("R-RETRY", vkey, st.b.Nodes[st.i].Pos(), core.Discharged, "every swap is decided on the view decoded from the pointer it compares against")
+				}
 			}
 		}
 		// CAS calls that are not an if-condition
